@@ -62,3 +62,14 @@ func newRegex(lex pathLexer, expr ast.Node, pattern, flags string) ast.Node {
 	}
 	return node
 }
+
+// anyLevel converts the level lit of a .**{level} accessor, written in any
+// of the integer literal forms. It records an error if lit is out of range.
+func anyLevel(lex pathLexer, lit string) int {
+	level, err := strconv.ParseInt(lit, 0, 32)
+	if err != nil {
+		lex.Error(fmt.Sprintf("level %q of .** is out of range", lit))
+		return 0
+	}
+	return int(level)
+}
